@@ -3338,6 +3338,13 @@ class DenseIntOrFPElementsAttr(
         # Normalise ints
         if isinstance(t := type.get_element_type(), IntegerType):
             data = tuple(t.get_normalized_value(x) for x in data)  # pyright: ignore[reportArgumentType]
+        elif isinstance(t, ComplexType) and isinstance(
+            et := t.element_type, IntegerType
+        ):
+            data = tuple(
+                (et.get_normalized_value(real), et.get_normalized_value(imag))  # pyright: ignore[reportArgumentType]
+                for real, imag in data  # pyright: ignore[reportGeneralTypeIssues]
+            )
 
         b = type.element_type.pack(data)  # pyright: ignore[reportArgumentType]
 
